@@ -143,7 +143,7 @@ func TestVerifC19_sum_invalid(t *testing.T) {
 	plan := verifc19.InvalidPlan{
 		Insts:      []prio.Inst{c19Sum(1), c19Sum(2), c19Sum(3), c19Sum(5), c19Sum(7), c19Sum(255)},
 		Shares:     []int{2, 3},
-		Seeds:      r.Pick(2, 5),
+		Seeds:      r.Pick(2, 3),
 		ProductCap: r.Pick(4096, 65536),
 		SetLimit:   4096,
 	}
